@@ -27,10 +27,10 @@ CHECKS = {
             "Every interleaving (to the depth bound) of application sends by two senders, encrypted proposals, deliveries in any order and write+reload of either side: no (key, nonce) is ever used twice, application and handshake keys are disjoint, the reuse guard is freshly drawn and applied, every first delivery succeeds, every re-delivery (also after reload) is refused; plus the 1024-generation window boundary in both directions.",
             "Trusted: explorer, recording provider wrapper; the receiver-side ratchet value comes from the library's own secret_tree_access API. 3 members, depth 8 (quick) / 10 (thorough).", "DESIGN.md 2/C05"),
     "C06": ("fault_enumeration", "exhaustive enumeration of (history, write positions, crash/reload point, retention, store) cases, each executed from scratch on the real implementation over a tee of the shipped in-memory store, the shipped SQLite store and a reference store model",
-            "Every history of the target member up to the depth bound x every set of write positions x every reload point x retention x shipped store: load-after-write equals the saved member (complete state), a crash after any unwritten tail loads exactly the last written state, a reloaded copy stays in lockstep with the never-reloaded member, and all reads agree between in-memory store, SQLite store and model.",
+            "Every history of the target member up to the depth bound x every set of write positions x every reload point x retention x shipped store: load-after-write equals the saved member (complete state), a crash after any unwritten tail loads exactly the last written state, a reloaded copy stays in lockstep with the never-reloaded member, and all reads agree between in-memory store, SQLite store and model; a second, untouched group of the same member in the same storage keeps its records as written.",
             "Trusted: explorer, hook verif_state, reference store model. Crash points lie between storage trait calls; SQLite on an in-memory connection.", "DESIGN.md 2/C06"),
     "C07": ("model_checking", MC,
-            "On the same traversal every Welcome/external joiner is ledger-compared with the members, its key package deletion is checked around its first write, and its first commit must be accepted; plus (checks/c07x.rs) an enumerated mismatch matrix of Welcomes / trees / key packages / GroupInfos that must not produce a group and must leave the joiner's stores and the members unchanged, a last-resort key package that must survive, every re-join-with-the-same-storage scenario (write pattern x way of leaving x gap x re-entry x next commit), and the shipped key-package stores against a map for every short operation sequence.",
+            "On the same traversal every Welcome/external joiner is ledger-compared with the members, its key package deletion is checked around its first write (also when that write meets a storage failure at each of its calls and is retried), and its first commit must be accepted; plus (checks/c07x.rs) an enumerated mismatch matrix of Welcomes / trees / key packages / GroupInfos that must not produce a group and must leave the joiner's stores and the members unchanged, a last-resort key package that must survive, every re-join-with-the-same-storage scenario (write pattern x way of leaving x gap x re-entry x next commit), and the shipped key-package stores against a map for every short operation sequence.",
             "Trusted: explorer, harness stores. Same bounds as C01. Known finding F-C07-1 (re-joiner with stale epoch records cannot follow the group) is listed in known-findings.json.", "DESIGN.md 2/C07, 7.3, 7.5"),
     "C08": ("model_checking", MC,
             "After every commit of the traversal every member's exported tree is re-parsed and re-hashed from scratch by an independent implementation (tree hash, parent-hash chains, unmerged lists, blank rules) and validated by a fresh external observer.",
@@ -39,7 +39,7 @@ CHECKS = {
             "After every commit of the traversal every stored private key of every member is tested against the public key of the corresponding node of the exported tree (HPKE seal/open as black box); blank nodes must carry no key; committer path keys must be fresh; a leaf private key replaced by an own update or commit must be gone from the state the member would store.",
             "Trusted: explorer, reference tree parser, hook verif_private_keys (read-only). Same bounds as C01.", "DESIGN.md 2/C09"),
     "C10": ("model_checking", "exhaustive enumeration of (seed tree, committer, set of <=3 (thorough <=4) by-reference proposal atoms out of 18, by-value atom out of 8) cases on forks of real worlds, judged by committer/receiver agreement and a coarse RFC 9420 rule table; plus enumerated sets of correctly signed external-sender / new-member proposals, and an adversarial committer (hook H8) over enumerated invalid proposal sets",
-            "Every such case is executed on real members: proposals are sent and delivered (also in reverse order and with one missing), the committer commits, and every receiver must accept with the same applied / unused proposals and epoch state; a member missing a referenced proposal must refuse and stay unchanged; invalid by-value atoms make the build fail, invalid by-reference atoms are never applied, lone valid atoms are applied. Proposals of external senders and new members (valid and with a sender RFC 9420 12.1 does not allow for the type) are committed by reference with the same agreement oracle; 22 invalid proposal sets built into consistent commits by an adversarial committer must be refused by every receiver, 3 valid control sets accepted.",
+            "Every such case is executed on real members: proposals are sent and delivered (also in reverse order and with one missing), the committer commits, and every receiver must accept with the same applied / unused proposals and epoch state; a member missing a referenced proposal must refuse and stay unchanged; invalid by-value atoms make the build fail, invalid by-reference atoms are never applied, lone valid atoms are applied. Proposals of external senders and new members (valid and with a sender RFC 9420 12.1 does not allow for the type) are committed by reference with the same agreement oracle; 22 invalid proposal sets built into consistent commits by an adversarial committer must be refused by every receiver, 3 valid control sets accepted. In groups whose members differ in the credential types they support, by-reference Adds the RFC forbids are dropped silently and reported unused, valid ones applied, added parties join, and the follow-up commit of every member is built and accepted.",
             "Trusted: explorer, hook verif_state. Where the RFC leaves the choice among conflicting proposals to the committer only agreement is demanded. Receive-side rejection is exercised through hook H8 (lenient proposal filter of the committer); sets for which the committer cannot compute a consistent result even leniently are reported as not constructible.", "DESIGN.md 2/C10"),
     "C11": ("model_checking", MC,
             "Three real members race in one epoch; every interleaving (to the depth bound) of commit / commit_detached / clear / apply / apply_detached with any kept secrets / delivery of any candidate commit, with any candidate as the epoch's winner, is executed and judged against a reference machine {epoch, pending} per member, complete-state equality for what must not change, and the epoch ledger for what advances.",
@@ -54,7 +54,7 @@ CHECKS = {
             "For every pair of providers and every common suite all deterministic primitives are byte-compared over a length grid, randomised ones are cross-consumed in both directions (signatures, HPKE base/PSK, setup_s/setup_r, export), malformed keys / tags / lengths must get the same verdict, every provider assignment of a 4-party group is driven through all short histories with the C01 agreement oracle, and generated certificate chains (depth 1-3 x 16 variants x 5 validation times at the validity boundaries) must get the same and the implied verdict from the three X.509 validators, which must return the public key of the chain's first certificate.",
             "Trusted: the `openssl` crate as certificate generator. Known findings F-C14-1..4 are listed in known-findings.json. Providers are compared with each other, not with test vectors (C13 compares the derivations with an independent reference).", "DESIGN.md 2/C14"),
     "C16": ("model_checking", MC + "; observers (ExternalGroup) at every start epoch and jitter setting are driven along every explored history",
-            "On an exhaustive history traversal with public handshake messages, observers created at every epoch with every max_epoch_jitter setting must accept exactly what members accept, hold the members' context/roster/tree after every commit (also across snapshot/load), refuse corrupted, replayed and unresolvable commits, let ciphertexts through exactly inside the configured window without ever panicking, and have their external-sender proposals accepted and committed by members.",
+            "On an exhaustive history traversal with public handshake messages, observers created at every epoch with every max_epoch_jitter setting must accept exactly what members accept, hold the members' context/roster/tree after every commit (also across snapshot/load), refuse corrupted, replayed and unresolvable commits, let ciphertexts through exactly inside the configured window without ever panicking, and have their external-sender proposals accepted and committed by members; new-member Add proposals are in the alphabet, and one observer keeps its proposals outside the library (cache_proposals(false), cached_proposal / insert_proposal).",
             "Trusted: explorer, reference framing parser (signature offset). Same bounds as C01 (depth 3 quick / 4 thorough).", "DESIGN.md 2/C16"),
     "C17": ("model_checking", "exhaustive enumeration of (old-group shape, re-init/branch, creator, successor member set, key-package order) cases executed from scratch on the real implementation, judged by an identity-set predicate",
             "Old-group gallery (dense, interior blank leaf, re-keyed member, external-commit joiner) x re-init / branch x every creator x every successor member set (all subsets, superset by an outsider, each member replaced) x key-package orders: creation and joining succeed exactly when the identity sets are equal (re-init) / a subset (branch); outsiders, ex-members and cross-used Welcomes are refused; the old group refuses commits after the re-init; every re-init case in 4 parameter variants (given / no group id, changed context extensions, other cipher suite) must yield a successor with exactly the announced parameters, and an unlinked group with the successor's id is refused by ReinitClient::join.",
